@@ -68,7 +68,7 @@ func loadScripts(path string) []script {
 }
 
 // runOne executes one schedule; never returns an error: problems end up in the E line.
-func runOne(s script, seed uint64, w *traceWriter) {
+func runOne(s script, seed uint64, w *traceWriter) (stalled bool) {
 	r := &run{out: w, status: "ok"}
 	w.line("B", strconv.Itoa(s.idx), strconv.Itoa(s.ncallers), s.desc)
 	func() {
@@ -97,6 +97,7 @@ func runOne(s script, seed uint64, w *traceWriter) {
 	}()
 	r.finish()
 	r.teardown()
+	return strings.HasPrefix(r.status, "stuck")
 }
 
 func firstLines(s string, n int) string {
@@ -402,6 +403,8 @@ func schedules(mode, arg string, seed uint64) []script {
 	return out
 }
 
+const maxStuck = 4
+
 const batch = 400 // schedules per worker process (parked receive loops are leaked on purpose)
 
 func worker(mode, arg string, from int, outPath string) {
@@ -413,8 +416,16 @@ func worker(mode, arg string, from int, outPath string) {
 	w := &traceWriter{f: f}
 	seed := vc.Seed()
 	ss := schedules(mode, arg, seed)
+	nstuck := 0
 	for i := from; i < len(ss) && i < from+batch; i++ {
-		runOne(ss[i], seed, w)
+		if runOne(ss[i], seed, w) {
+			nstuck++
+		}
+		if nstuck >= maxStuck {
+			// every stall costs a full watchdog: a tree that stalls this often is reported on what was seen so far
+			w.line("Q", strconv.Itoa(i), "stopped after "+strconv.Itoa(nstuck)+" stalled schedules")
+			break
+		}
 	}
 	f.Close()
 	os.RemoveAll(filepath.Join(os.TempDir(), fmt.Sprintf("verif-c09-%d", os.Getpid())))
@@ -435,6 +446,7 @@ func supervise(mode, arg, outPath string) {
 		}
 		// find how far it got
 		lastB, lastE := -1, -1
+		quit := false
 		data, _ := os.ReadFile(outPath)
 		for _, l := range strings.Split(string(data), "\n") {
 			f := strings.Split(l, "\t")
@@ -444,8 +456,13 @@ func supervise(mode, arg, outPath string) {
 					lastB = n
 				} else if f[0] == "E" {
 					lastE = n
+				} else if f[0] == "Q" {
+					quit = true
 				}
 			}
+		}
+		if quit && err == nil {
+			return
 		}
 		if err == nil {
 			from = lastE + 1
